@@ -75,6 +75,9 @@ def gen_scenario(rng):
         # a NESTED run (the update is itself started by another project's hook): BUMPVER_OLD_VERSION / BUMPVER_NEW_VERSION of the outer run
         # are in the process environment and must not reach this run's hooks
         "nested": rng.random() < 0.3,
+        # WHICH file the status listing names when the tree is dirty: an unrelated file, or the config file itself (a file that carries a
+        # version pattern: then even --allow-dirty must stop the run before anything is written)
+        "dirty_pattern_file": rng.random() < 0.4,
     }
     # config-level consistency (the config reader rejects tag/push without commit: a different code path)
     if not sc["cfg_commit"]:
@@ -105,7 +108,7 @@ def model_op(sc):
         "dry": sc["dry"], "fetch": sc["fetch"], "ignore_vcs_tag": sc["ignore_vcs_tag"], "set_version": sc["set_version"],
         "vcs_present": sc["vcs_present"], "fail_at": sc["fail_at"],
         "branch_remote": sc["remote"] == "branch", "url_remote": sc["remote"] == "url",
-        "dirty_abort": sc["dirty"] and not sc["allow_dirty"],
+        "dirty_abort": sc["dirty"] and (not sc["allow_dirty"] or bool(sc.get("dirty_pattern_file"))),
         "gate_ok": sc["gate_ok"], "unique_ok": uniq_checked_ok, "rewrite_ok": sc["rewrite_ok"],
         "pre_ok": sc["pre"] != "fail", "post_ok": sc["post"] != "fail", "files": files,
     }
@@ -155,7 +158,8 @@ def run_impl(sc):
         if sc["remote"] == "url":
             pr.fake_set("remote_url", "default = https://example.invalid/x\n" if sc["kind"] == "hg" else "https://example.invalid/x.git\n")
         if sc["dirty"]:
-            pr.fake_set("status", " M unrelated.txt\n" if sc["kind"] == "git" else "M unrelated.txt\n")
+            dirty_name = "bumpver.toml" if sc.get("dirty_pattern_file") else "unrelated.txt"
+            pr.fake_set("status", (" M %s\n" if sc["kind"] == "git" else "M %s\n") % dirty_name)
         new = "1.2.4"
         if sc["set_version"]:
             args += ["--set-version", new if sc["gate_ok"] else "1.2.2"]
@@ -283,8 +287,8 @@ def oracle(sc, res, obs):
             return "hook saw BUMPVER_OLD_VERSION=%r BUMPVER_NEW_VERSION=%r" % (old, new)
     if ("pre_hook" in tr or "post_hook" in tr) and not commit_i and sc["pre"] != "fail" and sc["fail_at"] is None:
         return "hook ran without a commit: %r" % tr
-    if sc["dirty"] and not sc["allow_dirty"] and ("rewrite" in tr or muts) and "status" in tr:
-        return "dirty tree but the run went on: %r" % tr
+    if sc["dirty"] and (not sc["allow_dirty"] or sc.get("dirty_pattern_file")) and ("rewrite" in tr or muts) and "status" in tr:
+        return "dirty tree (%s, allow_dirty=%s) but the run went on: %r" % ("a file with a version pattern" if sc.get("dirty_pattern_file") else "another file", sc["allow_dirty"], tr)
     return None
 
 
